@@ -107,6 +107,27 @@ def r31(ctx) -> None:
     if not good:
         R.fail(ap, ap.node, 'dict append: content parsed from the literal '
                'itself', 'MessageContent.parse(<literal>) not found')
+    # the object stored in the message is THAT parse result, nothing else
+    minit = ctx.proj.cls(DICT, 'Message').own_method('__init__')
+    for c in calls_in(ap.node, 'Message'):
+        carg = bind_args(minit, c).get('content')
+        if carg is None:
+            R.fail(ap, c, 'dict append: stored content is the parsed literal',
+                   'the message is stored without content')
+            continue
+        defs = [v for _, v in local_assigns(ap, txt(carg))] \
+            if isinstance(carg, ast.Name) else [carg]
+        okd = bool(defs) and all(
+            v is not None and isinstance(strip_await(v), ast.Call)
+            and call_name(strip_await(v)) == 'parse'
+            and 'MessageContent' in txt(strip_await(v).func) for v in defs)
+        R.check(okd, ap, c, 'dict append: stored content is the parsed '
+                'literal',
+                f'`{txt(carg)}` has {len(defs)} definition(s) '
+                f'{[txt(v)[:40] for v in defs if v is not None]}: the '
+                f'content stored with the message can be an object other '
+                f'than the parse of this APPEND\'s literal (e.g. a cached '
+                f'content with the same checksum)')
     # (b) mime: `data` flows unchanged; _raw = get_raw(memoryview(data), …)
     m = ctx.proj.module(MIME)
     for f in m.funcs.values():
@@ -400,6 +421,26 @@ def r35(ctx) -> None:
                         why = f'start is {sorted(lo)}'
     R.check(ok, f, f.node, '_get_partial slices [start : start+length | len]',
             f'{why}: BODY[]<o.n> does not return b[o:o+n]')
+    # the only unsliced return is for "no partial at all"
+    cfg = cfg_of(f)
+    for n in cfg.find(lambda n: isinstance(n.stmt, ast.Return)):
+        v = n.stmt.value
+        if v is None or any(isinstance(x, ast.Subscript)
+                            and isinstance(x.slice, ast.Slice)
+                            for x in ast.walk(v)):
+            continue
+        conds = [(t, br) for t in cfg.nodes if t.kind == 'test'
+                 for br in ('t', 'f') if cfg.controlled_by(n, t, br)]
+        okc = bool(conds) and all(
+            guard_atoms(t.stmt.test) in ([('partial', False)],
+                                         [('partial', True)])
+            for t, _ in conds)
+        R.check(okc, f, n.stmt, '_get_partial: unsliced return only when '
+                'there is no partial',
+                f'`return {txt(v)}` is taken under '
+                f'{[txt(t.stmt.test) for t, _ in conds]}: a partial with a '
+                f'non-zero start offset (BODY[]<40.65536>) returns the '
+                f'whole section instead of b[o:o+n]')
     # start/length come from the FetchPartial
     src = {txt(v) for nm in ('start', 'length')
            for _, v in local_assigns(f, nm) if v is not None}
